@@ -247,3 +247,77 @@ crate::harness! {
         std::mem::forget((t0, t1));
     }
 }
+
+// ---- the edge every primitive adds: the releaser publishes `increment_clock()`, the acquirer calls
+// `update_clock(published)` (real ExecutionState functions on a table of three coroutine-less tasks whose initial
+// clocks come from the real spawn inheritance; no scheduling involved) --------------------------------------------
+
+/// Entry `i` of a clock, zero beyond its length (a task's clock is only as long as the task table was at its creation).
+fn zget(c: &VectorClock, i: usize) -> u32 {
+    if i < c.time.len() { c.get(i) } else { 0 }
+}
+
+fn clock_of(t: usize) -> VectorClock {
+    shuttle_engine::runtime::execution::ExecutionState::with(|s| s.get_clock(TaskId::from(t)).clone())
+}
+
+fn release_acquire_edge<const R: usize, const A: usize, const O: usize>() {
+    use shuttle_engine::runtime::execution::ExecutionState;
+    use shuttle_engine::Config;
+    use std::cell::RefCell;
+    use std::rc::Rc;
+    let sched: Rc<RefCell<dyn shuttle_engine::scheduler::Scheduler>> = Rc::new(RefCell::new(crate::env::NullSched));
+    crate::env::with_state(3, Config::new(), sched, || {
+        // some history: every task may have advanced its own clock before
+        crate::env::set_current(0);
+        if kani::any() { ExecutionState::with(|s| { s.increment_clock(); }); }
+        crate::env::set_current(1);
+        if kani::any() { ExecutionState::with(|s| { s.increment_clock(); }); }
+        crate::env::set_current(2);
+        if kani::any() { ExecutionState::with(|s| { s.increment_clock(); }); }
+        // release by task R
+        crate::env::set_current(R);
+        let r_before = clock_of(R);
+        let published = ExecutionState::with(|s| s.increment_clock().clone());
+        assert!(r_before < published, "C15: a clock-advancing operation did not advance the releasing task's clock");
+        assert!(clock_of(R) == published, "C15: the published clock is not the releaser's clock after its operation");
+        // acquire by task A
+        let a_before = clock_of(A);
+        let o_before = clock_of(O);
+        crate::env::set_current(A);
+        ExecutionState::with(|s| s.update_clock(&published));
+        let a_after = clock_of(A);
+        assert!(published <= a_after, "C15: the acquiring task's clock does not dominate the releasing task's clock");
+        assert!(a_before < a_after, "C15: the acquire did not advance the acquiring task's own clock");
+        let mut i = 0;
+        while i < 3 {
+            let own = if i == A { 1 } else { 0 };
+            let m = if zget(&a_before, i) + own > zget(&published, i) { zget(&a_before, i) + own } else { zget(&published, i) };
+            assert!(zget(&a_after, i) == m, "C15: the acquirer's clock is not the join of its own advanced clock and the published one");
+            i += 1;
+        }
+        // the bystander learns nothing, and the releaser does not learn about the acquirer
+        assert!(clock_of(O) == o_before, "C15: a task that did not take part changed its clock");
+        assert!(clock_of(R) == published, "C15: the releaser's clock changed when somebody else acquired");
+        assert!(!(a_after <= clock_of(R)), "C15: the releaser appears to have seen the acquire");
+        kani::cover!(zget(&a_before, R) < zget(&published, R), "the acquirer learns something new");
+        std::mem::forget(r_before);
+        std::mem::forget(published);
+        std::mem::forget(a_before);
+        std::mem::forget(o_before);
+        std::mem::forget(a_after);
+    });
+}
+
+crate::harness! {
+    #[kani::unwind(6)]
+    fn c15_release_acquire_edge_1_2() { release_acquire_edge::<1, 2, 0>(); }
+}
+crate::harness! {
+    #[kani::unwind(6)]
+    fn c15_release_acquire_edge_2_0() { release_acquire_edge::<2, 0, 1>(); }
+}
+crate::harness! {
+    #[kani::unwind(6)]
+    fn c15_release_acquire_edge_0_1() { release_acquire_edge::<0, 1, 2>(); }
+}
